@@ -2,13 +2,22 @@
 
 Generator: groups of `find` calls on the SAME data through the four overloads (aligned / index-based,
 plain / PreconditionedPointSet), Cartesian and homogeneous point types, float and double, 2D and 3D, on estimator
-objects that are reused (a larger unrelated problem first, then the smaller one).
+objects that are reused (a larger unrelated problem first, then the smaller one).  Two streams: the everyday one (motions
+uniform up to the cloud diameter, diameters 0.5..50, scales log-uniform in [1e-3, 1e3]) and a sweep / ladder stream over the
+decades of the quantifier (`_sweep_specs`): motions from the diameter down to 1e-7 (float) / 1e-14 (double) diameters, cloud
+and preconditioned-cloud sizes over the decades the condition limit admits, the ends of the scale range, the library's own
+scale = 1/extent — so that the right-hand side the solver sees ranges from O(1) down to the rounding level of the data.
 Oracle (property probe on the C++ outputs, judged here from the op text alone, in doubles with error-free sums):
   * matrix structure: unit diagonal, exact skew symmetry, last row (0 … 0 1);
   * the parameters read from the matrix equal the least-squares solution of the linearised problem computed
     independently by Householder QR, and satisfy its normal equations to rounding;
   * invariances: aligned = index-based, preconditioned = plain, homogeneous = Cartesian (each against the same reference
     and pairwise inside a group);
+  * for the PreconditionedPointSet overloads additionally: the parameters, taken back to preconditioned units, are the
+    least-squares solution of the problem AS HANDED OVER (the scaled points, rounded exactly as the C++ rounds them) and
+    hence satisfy its normal equations, with an allowance relative to the size of that solution / right-hand side only (the
+    comparison with the plain problem has to allow for the rounding of scale*s, scale*t, which is relative to the
+    coordinates and would excuse returning the identity for a small motion);
   * a pure translation is recovered exactly (to rounding); an exact rigid motion with rotation angle t about the origin
     is recovered with error <= C t^2, C = sqrt(n) (1/2 + |t|/6) max|s| / sigma_min(J)   (see `_rotation_bound`).
 """
@@ -162,6 +171,13 @@ def analyse(case):
                             a += 4.0 * u * math.sqrt(seen['n']) * seen['cmag'] / seen['smin']
                         icfg = 1.0 / abs(cfg) if cfg else 1.0
                         info['allow'] = [a * icfg] * dim + [a] * (plain['e'] - dim)
+                        # the problem AS HANDED to the estimator (the preconditioned points, rounded as the C++ rounds them) is
+                        # reproduced exactly in `seen`: judged against it, no allowance for the rounding of scale*s, scale*t is due —
+                        # everything left is relative to the size of the solution / right-hand side the solver sees
+                        # (+ u |x'| for the division by the scale in Ac)
+                        info['allow_seen'] = info['tol'] * base + 8.0 * u * math.sqrt(seen['n']) * seen['ymag'] / seen['smin'] + 1e-300
+                        # model and implementation are handed the SAME rounded points: between them only this part applies
+                        info['allow_b'] = [info['allow_seen'] * icfg] * dim + [info['allow_seen']] * (plain['e'] - dim)
                         info['scale'] = max(max(abs(v) for v in info['xexp']), 1e-300)
         except (ValueError, IndexError):
             info = None
@@ -235,7 +251,8 @@ def compare(case, li, op, impl, model):
         return True        # rank-deficient problem: both sides are garbage of different kinds
     if any(math.isnan(v) for v in xa + xb):
         return all(math.isnan(p) == math.isnan(q) for p, q in zip(xa, xb))
-    return all(abs(p - q) <= 2 * al for p, q, al in zip(xa, xb, info['allow']))
+    u = U[info['T']]
+    return all(abs(p - q) <= 2 * al + 8 * u * max(abs(p), abs(q)) for p, q, al in zip(xa, xb, info['allow_b']))
 
 
 # ------------------------------------------------------------------ generators
@@ -262,10 +279,12 @@ def _rotation(rng, dim, theta):
     return R, a
 
 
-def _scene(rng, dim, T, n, kind):
-    """source points, target points, unit normals (all rounded to the scalar type) + ground truth"""
-    diam = rng.loguniform(0.5, 50.0)
-    centre = [rng.uniform(-1, 1) * diam * rng.choice([0.0, 0.3, 1.0]) for _ in range(dim)]
+def _scene(rng, dim, T, n, kind, spec=None):
+    """source points, target points, unit normals (all rounded to the scalar type) + ground truth.
+    `spec` (sweep stream, see `_sweep_specs`): fixed cloud diameter `diam` and motion size `frac` (translation length and
+    rotation arc as a fraction of the cloud diameter) instead of the everyday ranges."""
+    diam = spec['diam'] if spec else rng.loguniform(0.5, 50.0)
+    centre = [rng.uniform(-1, 1) * diam * rng.choice([0.0, 0.3] if spec else [0.0, 0.3, 1.0]) for _ in range(dim)]
     src = [[_rnd(T, centre[c] + rng.uniform(-0.5, 0.5) * diam) for c in range(dim)] for _ in range(n)]
     shape = rng.below(3)
     if shape == 0:       # isotropic normals
@@ -284,11 +303,13 @@ def _scene(rng, dim, T, n, kind):
     axis = None
     tr = [0.0] * dim
     if kind in ('translation', 'general'):
-        l = rng.uniform(0, 1) * diam
+        l = (spec['frac'] if spec else rng.uniform(0, 1)) * diam
         d = _unit(rng, dim)
         tr = [l * a for a in d]
     if kind in ('rotation', 'general'):
         theta = rng.uniform(-0.1, 0.1)
+        if spec:    # arc over the cloud radius comparable to the translation: theta * diam / 2 ~ frac * diam
+            theta = rng.choice([-1.0, 1.0]) * min(0.1, 2.0 * spec['frac'] * rng.uniform(0.3, 1.0))
     R, axis = _rotation(rng, dim, theta)
     noise = diam * rng.choice([1e-3, 1e-2]) if kind == 'noisy' else 0.0
     if kind == 'noisy':
@@ -344,16 +365,18 @@ def _well_posed(src, tgt, nrm, dim, T):
     return p is not None and p['cond'] < 0.5 * COND_LIMIT[T] and p['smin'] ** 2 > 64 * EPS[T]
 
 
-def _group(rng, tier, idx):
+def _group(rng, tier, idx, spec=None):
     dim = rng.choice([2, 3])
     T = 'd' if rng.chance(0.6) else 'f'
-    tok = _tok(T)
-    e = 3 if dim == 2 else 6
     nmax = rng.choice([12, 30, 30, 80] + ([500] if tier != 'quick' or rng.chance(0.1) else []))
     n = rng.int(6, nmax)
     kind = rng.choice(['translation', 'rotation', 'general', 'general', 'noisy', 'zero'])
+    if spec:
+        dim, T, n, kind = spec['dim'], spec['T'], spec['n'], spec['kind']
+    tok = _tok(T)
+    e = 3 if dim == 2 else 6
     for _ in range(50):
-        src, tgt, nrm, truth = _scene(rng, dim, T, n, kind)
+        src, tgt, nrm, truth = _scene(rng, dim, T, n, kind, spec)
         if _well_posed(src, tgt, nrm, dim, T):
             break
     else:
@@ -376,12 +399,12 @@ def _group(rng, tier, idx):
                     break
         order = ['a', 'i', 'pa', 'pi']
         rng.shuffle(order)
-        order = order[:rng.int(2, 4)]
+        order = order[:(4 if spec and spec.get('all4') else rng.int(2, 4))]
         if 'a' not in order and 'i' not in order:
             order.append('a')
         # plain overloads first (identity configuration), then the preconditioned ones
         order.sort(key=lambda v: v.startswith('p'))
-        sc = _rnd(T, rng.loguniform(1e-3, 1e3))
+        sc = _rnd(T, spec['scale'] if spec else rng.loguniform(1e-3, 1e3))
         configured = False
         for v in order:
             if v.startswith('p') and not configured:
@@ -399,8 +422,58 @@ def _group(rng, tier, idx):
         if configured and rng.chance(0.15):
             # configuration persists: a plain find on a configured estimator returns the translation divided by the scale
             lines.append('lsq.find a ' + _aligned(tok, size, src, tgt, nrm, wn))
-    return {'name': 'grp-%d%s-%s-%d' % (dim, T, kind, idx), 'lines': lines,
-            'meta': {'dim': dim, 'T': T, 'truth': truth, 'group': group, 'n': n}}
+    meta = {'dim': dim, 'T': T, 'truth': truth, 'group': group, 'n': n}
+    if spec:
+        meta['sweep'] = {k: spec[k] for k in ('stream', 'diam', 'frac', 'scale')}
+    return {'name': '%s-%d%s-%s-%d' % (spec['stream'] if spec else 'grp', dim, T, kind, idx), 'lines': lines, 'meta': meta}
+
+
+# The property's quantifier is a product of ranges over many decades: preconditioning scale in [1e-3, 1e3], motion from
+# the cloud diameter down to nothing, clouds of any size whose normal matrix stays below the condition limit.  The everyday
+# stream above draws translation lengths uniformly in [0, diameter] and diameters in [0.5, 50]: a motion of 1e-4 diameters,
+# or a right-hand side of 1e-9 in the solver's (preconditioned) units, has probability ~0 there.  The sweep stream walks
+# those decades deliberately.  What the solver sees is governed by
+#     rho = scale * diameter   (size of the preconditioned cloud: conditioning of J', J' rotation columns ~ rho)
+#     frac = |motion| / diameter,   |Y'| ~ rho * frac,   |J'^T Y'| ~ n/dim * rho * frac
+# so specs are drawn in (diameter, rho, frac) and the scale follows (clipped to the property's [1e-3, 1e3]).
+# cond(J) ~ 6 / size for clouds smaller than 1, ~ size for larger ones (measured on this generator's scenes)
+DIAM_RANGE = {'d': (0.03, 200.0), 'f': (0.2, 25.0)}    # raw clouds inside the condition limit of the scalar type (COND_LIMIT)
+RHO_RANGE = {'d': (0.012, 200.0), 'f': (0.2, 20.0)}    # preconditioned clouds inside the same limit
+FRAC_DECADES = {'d': 14, 'f': 7}                        # motions down to 1e-14 / 1e-7 diameters (data rounding: 1e-16 / 6e-8)
+
+
+def _clip_scale(v):
+    return min(1e3, max(1e-3, v))
+
+
+def _sweep_specs(rng, tier):
+    specs = []
+    kinds = ['translation', 'translation', 'general', 'rotation']
+    # (1) ladder (boundary stream, deterministic coverage): one group per decade of motion size, per scalar type, for a
+    #     down-scaling preconditioner, the library's own 1/extent (rho = 1), an up-scaling one, and the ends of the scale range
+    for T in ('f', 'd'):
+        lo_rho = RHO_RANGE[T][0]
+        for k in range(1, FRAC_DECADES[T] + 1):
+            for j, (diam, rho) in enumerate([(10.0, lo_rho), (rng.loguniform(*DIAM_RANGE[T]), 1.0), (0.5, 5.0)]):
+                if tier == 'quick' and j == 2 and k % 2 == 0:
+                    continue
+                specs.append({'stream': 'ladder', 'T': T, 'dim': 2 + (k + j) % 2, 'n': rng.int(6, 14), 'kind': kinds[(k + j) % 2 * 2],
+                              'diam': diam, 'scale': _clip_scale(rho / diam), 'frac': 10.0 ** -k * rng.uniform(1.0, 3.0), 'all4': True})
+        # ends of the scale range and of the cloud sizes (for float the scale ends leave RHO_RANGE: correspondence only)
+        for sc, diam in ((1e-3, DIAM_RANGE[T][1]), (1e3, DIAM_RANGE[T][0]), (1.0, DIAM_RANGE[T][0]), (1.0, DIAM_RANGE[T][1])):
+            for frac in (0.5, 1e-3, 10.0 ** -(FRAC_DECADES[T] - 2)):
+                specs.append({'stream': 'edge', 'T': T, 'dim': rng.choice([2, 3]), 'n': rng.int(6, 12), 'kind': rng.choice(kinds),
+                              'diam': diam, 'scale': sc, 'frac': frac, 'all4': True})
+    # (2) structured random stream over the same product of ranges
+    for _ in range(60 if tier == 'quick' else 1200):
+        T = rng.choice(['f', 'd'])
+        diam = rng.loguniform(*DIAM_RANGE[T])
+        rho = 1.0 if rng.chance(0.25) else rng.loguniform(*RHO_RANGE[T])
+        nmax = rng.choice([8, 12, 12, 30, 80] + ([500] if tier != 'quick' else []))
+        specs.append({'stream': 'sweep', 'T': T, 'dim': rng.choice([2, 3]), 'n': rng.int(6, nmax), 'kind': rng.choice(kinds),
+                      'diam': diam, 'scale': _clip_scale(rho / diam), 'frac': 10.0 ** -rng.uniform(0.0, FRAC_DECADES[T]),
+                      'all4': rng.chance(0.5)})
+    return specs
 
 
 def _malformed():
@@ -417,6 +490,10 @@ def gen_cases(rng, tier):
     while len(cases) < ngroups + 1:
         g = _group(rng, tier, i)
         i += 1
+        if g is not None:
+            cases.append(g)
+    for j, spec in enumerate(_sweep_specs(rng, tier)):
+        g = _group(rng, tier, j, spec)
         if g is not None:
             cases.append(g)
     return cases
@@ -501,6 +578,23 @@ def oracle(case, out, stats):
             bump('normal_equations_checked')
             if not all(abs(g[i]) <= 2.0 * galw[i] for i in range(e)):
                 bad('normal-equations', 'J^T(Jx-Y) = %s exceeds %s' % (['%.3g' % v for v in g], ['%.3g' % (2 * v) for v in galw]))
+            if info['pre'] and info['cfg']:
+                # the same clause on the problem as handed over (preconditioned units: x' = Ac^-1 x): the parameters are the
+                # least-squares solution of THAT linearised problem (equivalently: satisfy ITS normal equations, J'^T(J'x'-Y') =
+                # J'^T J' (x' - x'_ls)), up to rounding relative to the size of the solution and of the right-hand side — a small
+                # motion under a down-scaling preconditioner is not excused by the coordinate-rounding allowance that the
+                # comparison with the plain problem needs
+                Q = info['seen']
+                asn = info['allow_seen']
+                xs = [x[c] * info['cfg'] for c in range(dim)] + x[dim:]
+                errs = max(abs(a - b) for a, b in zip(xs, Q['x']))
+                lim = asn + 4.0 * U[info['T']] * max(abs(v) for v in xs)
+                bump('handed_problem_checked')
+                stats['max_handed_err_over_tol'] = max(stats.get('max_handed_err_over_tol', 0.0), errs / lim)
+                if not (errs <= lim):
+                    bad('minimiser', 'parameters (in preconditioned units) differ from the least-squares solution of the problem as handed '
+                        'over by %.3g (%.3g times the allowance; |x\'| = %.3g, cond %.3g)' % (errs, errs / lim, max(abs(v) for v in Q['x']), Q['cond']),
+                        ty=info['ty'], variant=info['variant'], pre=True, problem='as-handed')
             if li in group:
                 gx.append((li, x, allow, info))
             # ground truth
@@ -551,6 +645,10 @@ def focused_cases(rng, disagreeing, tier):
     while len(cases) < 100:
         g = _group(rng, tier, 100000 + i)
         i += 1
+        if g is not None:
+            cases.append(g)
+    for j, spec in enumerate(_sweep_specs(rng, 'quick')):
+        g = _group(rng, tier, 100000 + j, spec)
         if g is not None:
             cases.append(g)
     return cases
